@@ -21,7 +21,7 @@ META = {
             "lib/anchors_c07.py; char::is_uppercase / str::to_lowercase are arbitrary functions in the theorems and "
             "come from rustc's std as tables in the run (U+03A3 excluded: context-sensitive lower-casing).",
 }
-COQ_TARGETS = ["Props/C07.vo", "Run/C07.vo"]
+COQ_TARGETS = ["Props/C07.vo", "Run/C07.vo", "Run/C06.vo"]
 PROPS_FILES = ["C07"]
 TRUSTED = ["model Model/FileName.v hand-written from src/util.rs; tied by anchors (constants) and by the differential run "
            "through norad::user_name_to_file_name",
@@ -52,6 +52,8 @@ def cps(s):
 
 def run(ctx, known, built):
     from driver import sh, coq_values, parse_term
+    import props.c06 as c06mod
+    c06mod.witnesses(ctx, known, "c07", lambda o: "length<=255" in o)
     out = os.path.join(ctx.scratch, "c07")
     os.makedirs(out)
     rc, o = sh([ctx.harness, "c07", "--tier", ctx.tier, "--seed", str(ctx.seed), "--out", out], timeout=3000)
@@ -137,6 +139,7 @@ def run(ctx, known, built):
                          "model_result": model, "model_in_class_len257": mknown == "true",
                          "implementation_first_results": case.get("results"), "generator": case.get("gen")}
                     ctx.disagreements.append(d)
+    ctx.disagreements.sort(key=lambda d: (len(d.get("name") or ""), d.get("k") or 0) if isinstance(d, dict) else (0, 0))
     ctx.obligation("correspondence:C07 function level (%d files, %d shards)" % (len(files), len(summ["shards"])),
                    nshard_ok == len(files) and not ctx.disagreements, "model and implementation differ")
     # ---- property oracle on the implementation
@@ -169,6 +172,17 @@ def run(ctx, known, built):
     for key in (("L0", 0), ("L0", 7), ("E0_t3", 5)):
         if key in index:
             ctx.samples.append(index[key])
+    # ---- container level: histories (the model of the containers is tied by C06's run; here a
+    # lighter set of histories, with the C07 clauses of the oracle: distinct ignoring case, stable,
+    # portable, evaluated after every operation)
+    import props.c06 as c06
+    nd = len(ctx.disagreements)
+    csum = c06.run_containers(ctx, known, built, "C07", light=True, tags=("C07:",))
+    if csum is not None:
+        csum.pop("shards", None)
+        ctx.cov["container_histories"] = csum
+        ctx.cov["evaluations"] += csum["operations_applied"]
+        ctx.cov["traces_validated_against_impl"] += csum["trie_nodes"] + csum["random_histories"]
 
 
 def replay(ctx, path):
